@@ -127,18 +127,28 @@ fn mapping_is_empty_handle_recusrsion(
         Some(mm) => match &mm.0 {
             MemoEmpty::True => return Ok(IsEmptyStatus::IsEmpty),
             MemoEmpty::False(ev) => return Ok(*ev),
-            MemoEmpty::Undefined => {
+            MemoEmpty::Undefined(depth) => {
                 // we got a loop
+                let depth = *depth;
+                ctx.memo_assume_empty(depth);
                 return Ok(IsEmptyStatus::IsEmpty);
             }
         },
-        None => {
-            ctx.mapping_memo_dnf
-                .insert(dnf.clone(), BddMemoEmptyRef(MemoEmpty::Undefined));
-        }
+        None => {}
     }
+    let mark = ctx.memo_enter();
+    ctx.mapping_memo_dnf
+        .insert(dnf.clone(), BddMemoEmptyRef(MemoEmpty::Undefined(mark.0)));
 
-    let is_empty = mapping_is_empty_impl(dnf.clone(), ctx, is_map)?;
+    let res = mapping_is_empty_impl(dnf.clone(), ctx, is_map);
+    let keep = ctx.memo_leave(mark, matches!(res, Ok(IsEmptyStatus::IsEmpty)));
+    let is_empty = match res {
+        Ok(it) if keep => it,
+        other => {
+            ctx.mapping_memo_dnf.remove(&dnf);
+            return other;
+        }
+    };
     ctx.mapping_memo_dnf
         .get_mut(&dnf)
         .expect("bdd should be cached by now")
